@@ -709,7 +709,8 @@ class SAMIParser(HTMLParser):
             self.sami += f"</{closing_tag}>"
 
     def handle_entityref(self, name):
-        if name in ['gt', 'lt']:
+        # markup characters stay escaped: the output is parsed a second time
+        if name in ['gt', 'lt', 'amp']:
             self.sami += f'&{name};'
         else:
             try:
@@ -721,9 +722,11 @@ class SAMIParser(HTMLParser):
 
     def handle_charref(self, name):
         if name[0] == 'x':
-            self.sami += chr(int(name[1:], 16))
+            char = chr(int(name[1:], 16))
         else:
-            self.sami += chr(int(name))
+            char = chr(int(name))
+        # markup characters stay escaped: the output is parsed a second time
+        self.sami += escape(char)
 
     # override the parser's handling of data
     def handle_data(self, data):
